@@ -7,7 +7,7 @@ def run(tier, seed):
     c.functions |= {'main', 'ScopeStack::new_from_push', 'ScopeStack::declare', 'ScopeStack::get', 'ScopeStack::assign', 'scope::set', 'eval_stmts', 'eval_stmt (Func, Block, While, For)', 'eval_expr (Func, Var, Call)',
                     'eval_call', 'bind_next_name', 'bind_name', 'HashMap model'}
     ts = scopes.templates(tier, seed)
-    c.bounds = {'programs': '%d templates: 15 curated x 2 (renamed), 20 redeclaration kind pairs, 10 binding positions x 12 non-bindable targets, %d generated (seeded by VERIF_SEED) with nesting <= 3 and <= 12 statements' % (len(ts), 40 if tier == 'quick' else 300),
+    c.bounds = {'programs': '%d templates: 15 curated x 2 (renamed), 20 redeclaration kind pairs, 10 binding positions x 12 non-bindable targets, %d generated (seeded by VERIF_SEED) with nesting <= 3 and <= 12 statements' % (len(ts), 80 if tier == 'quick' else 400),
                 'values': 'symbolic i64 / bool'}
     c.outside = ['programs outside the generated sample; deeper nesting']
     c.run_family('scopes', ts, ('exit', 'stdout', 'stderr-empty', 'panic', 'hang'), scopes.role)
